@@ -9,7 +9,7 @@ WT="$(mktemp -d /tmp/benign-wt.XXXX)"; rmdir "$WT"
 git -C /repo worktree add -q "$WT" HEAD || exit 2
 trap 'git -C /repo worktree remove --force "$WT"; git -C /repo worktree prune' EXIT
 bad=0
-for d in "$@"; do
+for d0 in "$@"; do d="$(realpath "$d0")"
   git -C "$WT" checkout -q -- . && git -C "$WT" clean -fdq
   git -C "$WT" apply "$d" || { echo "$d: DOES NOT APPLY"; continue; }
   (cd "$WT" && go build ./... ) || { echo "$d: DOES NOT BUILD"; continue; }
